@@ -348,6 +348,8 @@ pub fn generate(f: Family, rng: &mut Rng, size: usize) -> Prog {
             let ch = b.obj(Obj::Chan(None));
             b.senders.push((ch, vec![1]));
             b.receivers.push((ch, 0));
+            // every sent value is unique, so that a receive identifies the send it observed
+            let mut next_msg = 5i64;
             for t in 0..nt {
                 let k = small(rng, 1, omax.min(3));
                 let mut held = false;
@@ -363,7 +365,10 @@ pub fn generate(f: Family, rng: &mut Rng, size: usize) -> Prog {
                         }
                         2 => Op::FetchAdd(a, 1),
                         3 => Op::Load(a),
-                        4 if t == 1 => Op::Send(ch, 5),
+                        4 if t == 1 => {
+                            next_msg += 1;
+                            Op::Send(ch, next_msg)
+                        }
                         4 | 5 if t == 0 => Op::TryRecv(ch),
                         6 => Op::Yield,
                         _ => Op::Store(a, 9),
